@@ -62,6 +62,15 @@ INITIAL = {
     "legacy-csv-and-bak": _old({"config/settings.yaml": SETTINGS_BARE, "config/merchant_categories.csv": CSV_RULES,
                                 "config/merchant_categories.csv.bak": OLD_BAK, "data/s.csv": STMT}),
     "rules-unreferenced": _old({"config/settings.yaml": SETTINGS_BARE, "config/merchants.rules": RULES, "data/s.csv": STMT}),
+    # settings name a views file that does not exist (read-only commands must not create it)
+    "old-views-dangling": _old({"config/settings.yaml": SETTINGS_FULL, "config/merchants.rules": RULES, "data/s.csv": STMT}),
+    "new-views-dangling": _new({"config/settings.yaml": SETTINGS_FULL, "config/merchants.rules": RULES, "data/s.csv": STMT}),
+    # earlier backups with gaps in their numbering (a new backup must take a name that is free)
+    "legacy-csv-bak1-only": _old({"config/settings.yaml": SETTINGS_BARE, "config/merchant_categories.csv": CSV_RULES,
+                                  "config/merchant_categories.csv.bak.1": OLD_BAK, "data/s.csv": STMT}),
+    "legacy-csv-bak-and-bak2": _old({"config/settings.yaml": SETTINGS_BARE, "config/merchant_categories.csv": CSV_RULES,
+                                     "config/merchant_categories.csv.bak": OLD_BAK, "config/merchant_categories.csv.bak.2": OLD_BAK + "SECOND,Old Backup 2,Keep,Too\n",
+                                     "data/s.csv": STMT}),
 }
 
 COMMANDS = [
